@@ -175,6 +175,15 @@ def check(ctx, need):
             ctx.ob(ok, 'each message is read into buf[bytes_read..] (found `%s`)' % d[:80], 'ws|read-offset', loc=c.loc())
         acc = [show(e) for _, e in var_inits(wr, 'bytes_read')]
         ctx.ob(any(a.startswith('((bytes_read AddWithOverflow MessageCursor::read(') for a in acc), 'the running count accumulates what each cursor read returned', 'ws|read-accumulate', loc=wr.loc())
+        # bytes already copied in this call are never discarded: an error (final or would-block) is
+        # only reported when nothing has been copied yet; otherwise the count is returned first
+        rerrs = [(b, e) for b, e in prims.ret_variants(wr) if e[0] == 'agg' and e[2] == 'Err'] + \
+                [(cs.bb, None) for cs in wr.calls('FromResidual::from_residual') if cs.dest['l'] == 0]
+        ctx.ob(len(rerrs) >= 2, 'adapter read has its two error exits (final error, would-block)', 'ws|read-err-exits', loc=wr.loc())
+        ZERO = [r'^\(bytes_read <= 0\)$', r'^\(bytes_read == 0\)$', r'^!\(0 < bytes_read\)$', r'^!\(bytes_read > 0\)$']
+        for b, e in rerrs:
+            ctx.ob(guarded_any(wr, b, ZERO), 'adapter read reports an error only when no byte has been copied in this call (guards: %s)' % '; '.join(guard_strs(wr, b))[-160:],
+                   'ws|read-err-after-data|%s' % ('would-block' if e is not None and 'WouldBlock' in show(e) else 'final'), loc=wr.loc())
         oks = [(b, show(e)) for b, e in prims.ret_variants(ww) if e[0] == 'agg' and e[2] == 'Ok']
         snd = ww.calls('tungstenite::WebSocket::send')
         ok = len(snd) == 1 and show(snd[0].arg(1)) == 'Message::Binary{0: slice::to_vec(buf)}' and all(s == 'Result::Ok{0: slice::len(buf)}' and guarded_any(ww, b, [r'^WebSocket::send\(.*\) is Ok$']) for b, s in oks) and bool(oks)
